@@ -106,7 +106,7 @@ def oracle(case):
             msgs.append(f"after op {i} {U.fmt_op(op)}: {m}")
         msgs += [f"op {i}: {m}" for m in U.effect_errors(d, before, op, o, after, d["names"])]
         before = after
-        if msgs:
+        if msgs or not U.healthy(nodes):
             break
     return msgs
 
